@@ -135,7 +135,12 @@ fn run_b(case: &CaseB, record: Option<u64>) -> Result<Outcome, String> {
 
 /// Disagreements between the real driver on pipes and the simulated devices belong to the byte
 /// layer (C18) and, for the real driver's poll/read mapping, to C10.
-fn hybrid_label(en: &EnB) -> Option<&'static str> { if en.c18 { Some("C18-hybrid") } else if en.c10 { Some("C10-hybrid") } else { None } }
+/// A message marked "[driver]" is about RealDriver's own decisions (which device is ready, what an
+/// errno means): C10's business, not the byte format's.
+fn hybrid_label(en: &EnB, msg: &str) -> Option<&'static str> {
+  let driver_only = msg.starts_with("[driver]");
+  if en.c18 && !driver_only { Some("C18-hybrid") } else if en.c10 { Some("C10-hybrid") } else { None }
+}
 
 /// Execute in replay mode and evaluate the enabled projection.
 pub fn replay_b(case: &CaseB, en: &EnB, obs: &mut ObsB) -> Result<Option<Violation>, String> {
@@ -143,7 +148,7 @@ pub fn replay_b(case: &CaseB, en: &EnB, obs: &mut ObsB) -> Result<Option<Violati
   let l = case.layout.clone();
   let en2 = *en;
   let r = catch_unwind(AssertUnwindSafe(|| check_trace(&l, &o.trace, &o.result, &en2, obs))).map_err(|e| format!("reference loop panicked: {}", panic_msg(&e)))?;
-  if r.is_none() { if let Some(be) = &o.byte_error { if let Some(lab) = hybrid_label(en) { return Ok(Some(Violation::new(lab, o.trace.len(), be.clone()))); } } }
+  if r.is_none() { if let Some(be) = &o.byte_error { if let Some(lab) = hybrid_label(en, be) { return Ok(Some(Violation::new(lab, o.trace.len(), be.clone()))); } } }
   Ok(r)
 }
 
@@ -273,7 +278,7 @@ impl Campaign for LoopCampaign {
       let s = &o.stats;
       acc.fault("signal_interrupts_poll", s.eintr); acc.fault("spurious_timeout_idle", s.spurious_timeout); acc.fault("spurious_readiness", s.spurious_ready);
       acc.fault("io_latency_in_call", s.latency); acc.fault("timer_oversleep", s.oversleep); acc.fault("keyboard_unplugged", s.kbd_unplugged); acc.fault("tablet_switch_unplugged", s.tab_unplugged);
-      acc.fault("io_error_in_driver_call", s.io_error); acc.fault("os_write_eagain_under_real_writer", s.os_write_fault[0]); acc.fault("os_write_epipe_under_real_writer", s.os_write_fault[1]); acc.fault("os_write_ebadf_under_real_writer", s.os_write_fault[2]); acc.fault("os_read_ebadf_under_real_driver", s.os_read_fault);
+      acc.fault("io_error_in_driver_call", s.io_error); acc.fault("os_write_eagain_under_real_writer", s.os_write_fault[0]); acc.fault("os_write_epipe_under_real_writer", s.os_write_fault[1]); acc.fault("os_write_ebadf_under_real_writer", s.os_write_fault[2]); acc.fault("os_read_ebadf_under_real_driver", s.os_read_fault); acc.fault("os_read_enodev_unplug_under_real_driver", s.os_enodev);
       acc.probe_n("real_driver_polls_cross_checked", s.real_polls_compared); acc.fault("device_order_flipped", s.order_flipped); acc.fault("arrival_during_drain", s.arrival_during_drain); acc.fault("backoff_sleep", s.backoff_sleeps);
       acc.probe_n("wakeup_with_two_or_more_events", s.multi_event_wakeups); acc.probe_n("both_devices_ready_in_one_wakeup", s.both_devices_ready); acc.probe_n("wakeup_with_sixteen_or_more_events", s.max_events_one_wakeup);
       acc.count("steps", o.trace.len() as u64); acc.count("sim_us", o.sim_us); acc.count("backoff_slept_us", o.slept_us); acc.count("trace_cap_hit", s.trace_cap_hit);
@@ -285,7 +290,7 @@ impl Campaign for LoopCampaign {
       Ok(v) => v,
       Err(e) => { harness_error = Some(format!("reference loop panicked: {}", panic_msg(&e))); None }
     };
-    if verdict.is_none() { if let Some(be) = &out.byte_error { if let Some(lab) = hybrid_label(&self.en) { verdict = Some(Violation::new(lab, out.trace.len(), be.clone())); } } }
+    if verdict.is_none() { if let Some(be) = &out.byte_error { if let Some(lab) = hybrid_label(&self.en, be) { verdict = Some(Violation::new(lab, out.trace.len(), be.clone())); } } }
     let mut fail_case = case.clone();
     let mut state_hashes = vec![obs.shape];
     let mut digest = out.digest;
